@@ -246,17 +246,32 @@ def recenter (c : α × α) (rects : List (SRect α)) : Except Err (List (SRect 
   let incy := c.2 - y
   pure (rects.map fun r => { r with cx := r.cx + incx, cy := r.cy + incy })
 
-/-- the trials of lines 110–118: the first strictly smallest wirelength wins (`best_wl = inf` is `none`). -/
+/-- one comparison `if wl < best_wl` of lines 116–118: `best_wl = inf`, `best_coord = None` is `none`; against `inf`
+    the test is `Ops.ltInf wl` (false for an `inf` / NaN wirelength, which therefore never wins — as in Python, where
+    `best_coord` then stays `None` and the `assert best_coord is not None` fails). -/
+def betterTrial (o : Ops α) (best : Option (DieResult α)) (r : DieResult α) : Option (DieResult α) :=
+  match best with
+  | none => if o.ltInf r.wl then some r else none
+  | some b => if r.wl < b.wl then some r else some b
+
+/-- the trials of lines 110–118: the first strictly smallest wirelength (below `inf`) wins. -/
 def runTrials (o : Ops α) (adj : List (List (Edge α))) (mass : List α) (W H : α) (c0 c1 : List α)
     (fixed : List Bool) (maxIter : Nat) :
     Nat → List α → Option (DieResult α) → Except Err (Option (DieResult α))
   | 0, _, best => .ok best
   | k + 1, draws, best => do
     let r ← spectralLayoutDie o adj mass W H c0 c1 fixed draws maxIter
-    let best := match best with
-      | none => some r
-      | some b => if r.wl < b.wl then some r else some b
-    runTrials o adj mass W H c0 c1 fixed maxIter k r.draws best
+    runTrials o adj mass W H c0 c1 fixed maxIter k r.draws (betterTrial o best r)
+
+/-- (specification device, not code) the results of the `k` trials in order: each starts with the draws the previous
+    one left. -/
+def trialResults (o : Ops α) (adj : List (List (Edge α))) (mass : List α) (W H : α) (c0 c1 : List α)
+    (fixed : List Bool) (maxIter : Nat) : Nat → List α → Except Err (List (DieResult α))
+  | 0, _ => .ok []
+  | k + 1, draws => do
+    let r ← spectralLayoutDie o adj mass W H c0 c1 fixed draws maxIter
+    let rs ← trialResults o adj mass W H c0 c1 fixed maxIter k r.draws
+    pure (r :: rs)
 
 /-- lines 122–133 for one module, given its new centre `p`. -/
 def finishModule {β : Type} (m : SMod α β) (p : α × α) : Except Err (SMod α β) := do
